@@ -3,6 +3,7 @@ package in_toto
 import (
 	"bytes"
 	"context"
+	"crypto/ed25519"
 	"encoding/base64"
 	"encoding/json"
 	"errors"
@@ -173,6 +174,20 @@ func (e *Envelope) Dump(path string) error {
 }
 
 func getSignerVerifierFromKey(key Key) (dsse.SignerVerifier, error) {
+	// The constructors below trust the key material to match the key type,
+	// so check it first instead of letting them panic.
+	if err := validateKeyVal(key); err != nil {
+		return nil, err
+	}
+	if key.KeyType == ed25519KeyType {
+		if len(key.KeyVal.Public) != 2*ed25519.PublicKeySize {
+			return nil, ErrInvalidKey
+		}
+		if l := len(key.KeyVal.Private); l != 0 && l != ed25519.PrivateKeySize && l != 2*ed25519.PrivateKeySize {
+			return nil, ErrInvalidKey
+		}
+	}
+
 	sslibKey := getSSLibKeyFromKey(key)
 
 	switch sslibKey.KeyType {
